@@ -31,6 +31,13 @@ def gen_var(rng, name, node_id, allow_relative=True):
             v["relative"] = rng.choice([0x180, 0x200, 0x600])
             v["default"] = v["relative"] + node_id
             v.pop("value", None)
+    elif t in (0x08, 0x11):
+        # REAL32 / REAL64: values that need many digits, an exponent, or are tiny / huge
+        floats = [0.0, 1.5, -2.25, 1.23456789012, 2.5e-9, 1.17549435e-38, -3.25e20, 0.1, 1e-7 / 3]
+        if rng.random() < 0.8:
+            v["default"] = rng.choice(floats)
+        if rng.random() < 0.4:
+            v["value"] = rng.choice(floats)
     elif t == 0x01:
         v["default"] = rng.choice([0, 1])
     elif t in (0x09, 0x0B):
@@ -74,6 +81,8 @@ def gen_dict(rng, node_id):
 
 def num(rng, v, signed_bits=None):
     """number spelling: decimal or hex; negative limits of signed types as two's complement hex"""
+    if isinstance(v, float):
+        return repr(v)
     if v < 0:
         if signed_bits and rng.random() < 0.7:
             return "0x%X" % (v + (1 << signed_bits))
